@@ -121,7 +121,17 @@ class C09(Prop):
         ctx = case.ctx
         if sorted(order) != sorted(case.led.webentities().get(w, [])):
             return      # drawn for another state (reduced replay)
+        # before any other read: one complete chain with k=2 (pagination as the first request after the preceding write)
+        first, tok = [], None
+        for _ in range(len(case.led.pages) + 3):
+            r = self.call(case, w, order, 2, tok, co)
+            first += [(bytes(g["lru"]), bool(g["crawled"])) for g in r["pages"]]
+            if r["done"]:
+                break
+            tok = r["token"]
         seq, mem = self.expected_sequence(case, w, order, co)
+        if first != seq:
+            ctx.fail("sequence", "k=2 as the first request after the last write: paging yields %r, expected %r" % (first[:8], seq[:8]), case)
         n = len(seq)
         ks = list(range(1, n + 2)) if n <= 14 else [1, 2, 3, 5, n - 1, n, n + 1]
         deep = any(p.count(b"|") - pp.count(b"|") >= 2 for p, (pp, c) in mem.items())
